@@ -4,6 +4,7 @@ package engine
 
 import (
 	"errors"
+	"slices"
 	"sync"
 	"sync/atomic"
 
@@ -27,6 +28,8 @@ type vwBlob struct {
 	w        *vwWorld
 	data     map[oid.Address][]byte
 	putFails bool
+	// deletion faults of the shard harnesses
+	deleteFails, crashy bool
 }
 
 func (b *vwBlob) Type() string { return "model" }
@@ -39,12 +42,42 @@ func (b *vwBlob) Put(a oid.Address, bin []byte) error {
 	return nil
 }
 func (b *vwBlob) Delete(a oid.Address) error {
+	if b.crashy {
+		vrt.Crash("before blob delete")
+	}
+	if b.deleteFails {
+		return errors.New("disk error")
+	}
 	if _, ok := b.data[a]; !ok {
 		return apistatus.ErrObjectNotFound
 	}
 	delete(b.data, a)
 	return nil
 }
+func (b *vwBlob) ShardID() common.ID { return common.ID{} }
+
+// Iterate visits the stored blobs in insertion-independent (address) order or,
+// when the world says so, in reverse.
+func (b *vwBlob) Iterate(h func(oid.Address, []byte) error, _ func(oid.Address, error) error) error {
+	var keys []oid.Address
+	for a := range b.data {
+		keys = append(keys, a)
+	}
+	slices.SortFunc(keys, func(x, y oid.Address) int {
+		c := x.Object().Compare(y.Object())
+		if b.w.reverseIteration {
+			c = -c
+		}
+		return c
+	})
+	for _, a := range keys {
+		if err := h(a, b.data[a]); err != nil {
+			return err
+		}
+	}
+	return nil
+}
+
 func (b *vwBlob) Exists(a oid.Address) (bool, error) { _, ok := b.data[a]; return ok, nil }
 func (b *vwBlob) GetBytes(a oid.Address) ([]byte, error) {
 	bin, ok := b.data[a]
@@ -76,6 +109,8 @@ type vwWorld struct {
 	shards []*shard.Shard
 	blobs  []*vwBlob
 	objs   map[oid.Address]*object.Object
+
+	reverseIteration bool
 }
 
 // vwNew builds an engine of n shards in the given modes; shard visiting order
